@@ -54,6 +54,8 @@ def sign_of(c):
 
 def run(chk):
     w = C.world_for(chk)
+    from . import ctors as _ctors
+    _ctors.run(chk, w)
     for rid, txt in (("R01.1", "threshold table: >0 -> WordBoundary, else NotWordBoundary, one store per boundary, never Unknown"),
                      ("R01.2", "padding/resize/zip/accessor forms"), ("R01.3", "scorer pipeline and dispatcher totality"),
                      ("R01.4", "daachorse iterator <-> merged weights pairing"), ("R01.5", "add_score position and offset forms"),
